@@ -98,6 +98,7 @@ def units(tier, seed):
                 us.append({'kind': 'fn', 'name': name, 'i': i, 'n': n, 'tier': tier, 'seed': seed})
     us.append({'kind': 'history', 'tier': tier, 'seed': seed})
     us.append({'kind': 'tiny', 'tier': tier, 'seed': seed})
+    us.append({'kind': 'high', 'tier': tier, 'seed': seed})
     return us
 
 
@@ -120,6 +121,8 @@ def run_unit(u):
         return run_history(u)
     if u['kind'] == 'tiny':
         return run_tiny(u)
+    if u['kind'] == 'high':
+        return run_high_orders(u)
     out = {'evals': 0, 'nontrivial': 0, 'fails': [], 'samples': [], 'maxima': {}, 'counters': {}, 'lists': {}}
     if u['kind'] == 'uncovered':
         out['lists']['exported_but_not_covered'] = [u['name']]
@@ -169,6 +172,24 @@ def run_unit(u):
     except Exception as e:
         fail('out= raises', None, str(e)[:150], None)
     try:
+        # 2-D arguments that are not C-ordered (transposed view, Fortran order), with and without out=
+        m = len(pts) - len(pts) % 2
+        if m >= 4:
+            base2 = np.array(pts[:m]).reshape(2, m // 2)
+            ref2 = refs[:m].reshape(2, m // 2)
+            for lay, x2 in (('transposed view', np.ascontiguousarray(base2.T).T), ('Fortran order', np.asfortranarray(base2))):
+                o2 = np.full(x2.shape, np.nan)
+                r2 = f(*(extras + (x2,)), out=o2, n=n)
+                g2 = np.asarray(o2 if r2 is None or r2 is o2 else r2, dtype=float)
+                g3 = np.asarray(f(*(extras + (x2,)), n=n), dtype=float)
+                out['evals'] += 2 * m
+                for form, gg in (('out= with a %s argument' % lay, g2), ('%s argument' % lay, g3)):
+                    e2 = np.abs(gg - ref2) / np.maximum(1.0, np.abs(ref2)) if gg.shape == ref2.shape else np.array([np.inf])
+                    if not np.all(e2 <= TOL):
+                        fail(form, None, np.asarray(gg).ravel()[:4].tolist(), ref2.ravel()[:4].tolist())
+    except Exception as e:
+        fail('2-D layout raises', None, str(e)[:150], None)
+    try:
         # the caller asks for the result to be written over the argument itself
         a4 = arr.copy()
         r = f(*(extras + (a4,)), out=a4, n=n)
@@ -211,6 +232,55 @@ def run_unit(u):
     out['nontrivial'] = int(np.count_nonzero(refs))
     if n == 3:
         out['samples'] = [{'function': label, 'n': n, 'points': pts[:6], 'reference': refs[:6].tolist()}]
+    return out
+
+
+def run_high_orders(u):
+    """orders far beyond the enumerated range (n = 15 ... 30: factorials beyond 2^63, long recurrences) for the functions whose
+    n-th derivative has an elementary closed form; exact rational / mpmath reference"""
+    out = {'evals': 0, 'nontrivial': 0, 'fails': [], 'samples': [], 'maxima': {}, 'counters': {}, 'lists': {}}
+    mpf = mp.mpf
+    fac = mp.factorial
+    closed = {
+        'reciprocal': lambda x, n: (-1) ** n * fac(n) / mpf(x) ** (n + 1),
+        'log': lambda x, n: (-1) ** (n - 1) * fac(n - 1) / mpf(x) ** n,
+        'log2': lambda x, n: (-1) ** (n - 1) * fac(n - 1) / mpf(x) ** n / mp.log(2),
+        'log10': lambda x, n: (-1) ** (n - 1) * fac(n - 1) / mpf(x) ** n / mp.log(10),
+        'log1p': lambda x, n: (-1) ** (n - 1) * fac(n - 1) / (1 + mpf(x)) ** n,
+        'exp': lambda x, n: mp.exp(mpf(x)),
+        'exp2': lambda x, n: mp.log(2) ** n * mpf(2) ** mpf(x),
+        'sin': lambda x, n: mp.sin(mpf(x) + n * mp.pi / 2),
+        'cos': lambda x, n: mp.cos(mpf(x) + n * mp.pi / 2),
+        'sinh': lambda x, n: mp.sinh(mpf(x)) if n % 2 == 0 else mp.cosh(mpf(x)),
+        'cosh': lambda x, n: mp.cosh(mpf(x)) if n % 2 == 0 else mp.sinh(mpf(x)),
+        'sqrt': lambda x, n: mp.rf(mpf(1.5) - n, n) * mpf(x) ** (mpf(0.5) - n),
+    }
+    pts = [0.75, 1.25, 2.5]
+    old = mp.mp.dps
+    mp.mp.dps = 60
+    try:
+        for name, cf in closed.items():
+            f = getattr(ND, name, None)
+            if f is None:
+                continue
+            for n in (12, 15, 18, 20, 21, 22, 23, 25, 30):
+                refs = np.array([float(cf(x, n)) for x in pts])
+                try:
+                    got = np.asarray(f(np.array(pts), n=n), dtype=float)
+                except Exception as ex:
+                    out['fails'].append({'sig': 'C16|%s|high order|raises' % name, 'case': dict(u, name=name, n=n), 'detail': {'error': str(ex)[:150]}})
+                    break
+                out['evals'] += len(pts)
+                out['nontrivial'] += len(pts)
+                rel = np.abs(got - refs) / np.abs(refs)
+                out['maxima']['relative_error_high_orders'] = max(out['maxima'].get('relative_error_high_orders', 0.0), float(np.nanmax(rel)))
+                if not np.all(rel <= 1e-9):
+                    k = int(np.argmax(~(rel <= 1e-9)))
+                    out['fails'].append({'sig': 'C16|%s|high order n%s20' % (name, '<=' if n <= 20 else '>'), 'case': dict(u, name=name, n=n),
+                                         'detail': {'x': pts[k], 'n': n, 'got': float(got[k]), 'expected': float(refs[k])}})
+                    break
+    finally:
+        mp.mp.dps = old
     return out
 
 
@@ -315,6 +385,8 @@ def run_history(u):
 def replay(case):
     if case.get('kind') == 'history':
         return run_history(case)['fails']
+    if case.get('kind') == 'high':
+        return [f for f in run_high_orders(case)['fails'] if f['case'].get('name') == case.get('name')]
     if case.get('kind') == 'tiny':
         return [f for f in run_tiny(case)['fails'] if f['case'].get('name') == case.get('name') and f['case'].get('n') == case.get('n')]
     return run_unit(case)['fails']
